@@ -50,6 +50,29 @@ def _cvc5_check(text, timeout_ms):
     return r, time.time() - t0
 
 
+def _z3_cli_check(text, timeout_ms):
+    """the z3 command line front end on the same SMT-LIB text (its default strategy decides some quantified obligations the API solver object leaves open)"""
+    import shutil
+    exe = shutil.which('z3-new') or shutil.which('z3')
+    if exe is None:
+        return 'unknown', 0.0
+    with tempfile.NamedTemporaryFile('w', suffix='.smt2', delete=False, dir=os.environ.get('VERIF_SCRATCH', '/var/tmp')) as f:
+        f.write(text if '(check-sat)' in text else text + '\n(check-sat)\n')
+        path = f.name
+    t0 = time.time()
+    try:
+        p = subprocess.run([exe, '-T:%d' % max(1, timeout_ms // 1000), path], capture_output=True, text=True, timeout=timeout_ms / 1000 + 10)
+        out = p.stdout.strip().splitlines()
+        r = out[0] if out else 'unknown'
+        if r not in ('sat', 'unsat', 'unknown'):
+            r = 'unknown'
+    except Exception:
+        r = 'unknown'
+    finally:
+        os.unlink(path)
+    return r, time.time() - t0
+
+
 def solve_one(job):
     name, text, timeout_ms, seed, use_cvc5 = job
     spent = 0.0
@@ -70,6 +93,13 @@ def solve_one(job):
     except Exception as e:
         return {'name': name, 'verdict': 'error', 'solver': 'z3', 'time_s': 0.0, 'reason': repr(e)}
     res = {'name': name, 'verdict': r, 'solver': 'z3', 'time_s': round(dt, 3), 'model': model, 'reason': reason}
+    if r == 'unknown':
+        r1, dt1 = _z3_cli_check(text, timeout_ms)
+        res['time_s'] = round(dt + dt1, 3)
+        dt += dt1
+        if r1 == 'unsat':
+            res.update({'verdict': 'unsat', 'solver': 'z3-cli'})
+            return res
     if r == 'unknown' and use_cvc5:
         r2, dt2 = _cvc5_check(text, timeout_ms)
         if r2 == 'unsat':
